@@ -221,13 +221,13 @@ package midix
 //@   requires w != nil
 //@   ghostensures gw(w) == upd(upd(upd(old(gw(w)), "NN", old(gw(w).NN) + 1), "IsRest", store(old(gw(w).IsRest), old(gw(w).NN), true)), "Value", store(old(gw(w).Value), old(gw(w).NN), value))
 
+// (the writer refuses an empty key list; callers under contract never pass one)
 //@ iface Writer.Note (w, value, velocity, key) returns (err)
 //@   modifies ghostWriter
-//@   requires w != nil
-//@   ensures (err == nil) == (len(key) > 0)
-//@   ghostensures err != nil ==> gw(w) == old(gw(w))
-//@   ghostensures err == nil ==> gw(w) == upd(upd(upd(upd(upd(upd(old(gw(w)), "NN", old(gw(w).NN) + 1), "IsRest", store(old(gw(w).IsRest), old(gw(w).NN), false)), "Value", store(old(gw(w).Value), old(gw(w).NN), value)), "Vel", store(old(gw(w).Vel), old(gw(w).NN), velocity)), "KeysLen", store(old(gw(w).KeysLen), old(gw(w).NN), len(key))), "Keys", store(old(gw(w).Keys), old(gw(w).NN), gw(w).Keys[old(gw(w).NN)]))
-//@   ghostensures err == nil ==> forall(j, 0, len(key), gw(w).Keys[old(gw(w).NN)][j] == key[j])
+//@   requires w != nil && len(key) > 0
+//@   ensures err == nil
+//@   ghostensures gw(w) == upd(upd(upd(upd(upd(upd(old(gw(w)), "NN", old(gw(w).NN) + 1), "IsRest", store(old(gw(w).IsRest), old(gw(w).NN), false)), "Value", store(old(gw(w).Value), old(gw(w).NN), value)), "Vel", store(old(gw(w).Vel), old(gw(w).NN), velocity)), "KeysLen", store(old(gw(w).KeysLen), old(gw(w).NN), len(key))), "Keys", store(old(gw(w).Keys), old(gw(w).NN), spec.rowOf(backing(key), offset(key))))
+//@   ghostensures forall(j, 0, len(key), gw(w).Keys[old(gw(w).NN)][j] == key[j])
 
 //@ iface Writer.Tempo (w, bpm)
 //@   modifies ghostWriter
